@@ -626,3 +626,68 @@ def main(ctx):
     # ------------------------------------------------ one Recfile object used for several files (mc/sfreuse.py)
     from mc.sfreuse import reused_recfile_world
     reused_recfile_world(ctx, "one-recfile-object-several-files", depth=ctx.pick(6, 8))
+
+    # ------------------------------------------------ chunks of exactly / next to block marks (decimal and binary)
+    # a writer that hands the rows to the file in blocks goes wrong only for chunk sizes that are exact multiples of
+    # its block size.  Short histories with ONE long chunk in every position: create(long) append(short),
+    # create(short) append(long), open-w write(long) write(short), through sfile and the header-less recfile, binary
+    # (and one text delimiter); dtype of 8 bytes per row.
+    def one_longchunk(case, rec):
+        mark, d, shape, delim, route = case
+        n = mark + d
+        dt = [("a", "<i4"), ("b", "<i2"), ("c", "S2")]
+
+        def mk(start, k):
+            t = np.zeros(k, dtype=dt)
+            idx = np.arange(start, start + k)
+            t["a"] = idx
+            t["b"] = idx % 30000
+            t["c"] = np.array([b"ab", b"c", b""])[idx % 3]
+            return t
+        sizes = {"long-short": (n, 3), "short-long": (3, n), "long-long": (n, n), "short-long-short": (2, n, 1)}[shape]
+        fn = os.path.join(rec.tmp, "c03_longchunk.rec")
+        if os.path.exists(fn):
+            os.unlink(fn)
+        try:
+            start = 0
+            if route == "append-by-reopen":
+                for i, k in enumerate(sizes):
+                    sfile.write(fn, mk(start, k), delim=delim, append=(i > 0), header={"k": 1} if i == 0 else None)
+                    start += k
+            elif route == "one-handle":
+                with sfile.SFile(fn, "w", delim=delim) as sf:
+                    for i, k in enumerate(sizes):
+                        sf.write(mk(start, k), header={"k": 1})
+                        start += k
+            else:
+                r = recfile.Recfile(fn, mode="w", delim=delim)
+                for k in sizes:
+                    r.write(mk(start, k))
+                    start += k
+                r.close()
+            total = start
+            if route == "recfile":
+                got, hdr = recfile.read(fn, np.dtype(dt), delim=delim), None
+            else:
+                got, hdr = sfile.read(fn, header=True)
+        except Exception as e:
+            return rec.fail(case, "chunks of %r rows via %s raised %s: %s" % (sizes, route, type(e).__name__, str(e)[:160]))
+        exp = mk(0, total)
+        if hdr is not None and (hdr.get("_SIZE") != total or hdr.get("k") != 1):
+            return rec.fail(case, "chunks of %r rows via %s: _SIZE=%r k=%r, %d rows written" % (sizes, route, hdr.get("_SIZE"), hdr.get("k"), total))
+        if got.shape != exp.shape or got.dtype.names != exp.dtype.names or any(not np.array_equal(got[nm], exp[nm]) for nm in exp.dtype.names):
+            w = None
+            if got.shape == exp.shape:
+                w = int(np.nonzero(got["a"] != exp["a"])[0][:1].sum()) if (got["a"] != exp["a"]).any() else None
+            return rec.fail(case, "chunks of %r rows via %s: file holds %r rows, %d written; first differing row %r" % (sizes, route, got.shape, total, w))
+        if delim is None and os.path.getsize(fn) < total * 8:
+            return rec.fail(case, "file has %d bytes for %d rows of 8 bytes" % (os.path.getsize(fn), total))
+        rec.ok(case, outcome="longchunk:%s:%s" % (shape, route), nontrivial=(d == 0))
+
+    cmarks = ctx.pick((100000, 1000000), (65536, 100000, 1000000, 1048576, 2000000))
+    lcunits = [(m, d, sh, dl, rt) for m in cmarks for d in (-1, 0, 1) for sh in ("long-short", "short-long", "long-long", "short-long-short")
+               for dl in (None, ",") for rt in ("append-by-reopen", "one-handle", "recfile")
+               if not (dl == "," and (m > 100000 or d != 0))]
+    ctx.lattice("chunks-at-block-marks", lcunits, one_longchunk,
+                bounds=dict(marks=list(cmarks), offsets=[-1, 0, 1], shapes=["long-short", "short-long", "long-long", "short-long-short"],
+                            routes=["append-by-reopen", "one-handle", "recfile"], text="only the 100000 mark, exact size"))
